@@ -53,3 +53,42 @@ Lemma hs_keccak_spec m : hs_keccak m = Z.of_N (le2n (Keccak.keccak256 m)) mod el
 Proof.
   unfold hs_keccak, Keccak.hash_to_scalar, Keccak.h2s. rewrite N2Z.inj_mod. reflexivity.
 Qed.
+
+(* ---- laws of EdLaws that ARE proved for the executable instance (the cheap, algebraic ones) ------------------------- *)
+Lemma inst_compress_len (P : @point ed25519_ops) : List.length (compress P) = 32%nat.
+Proof. cbn [compress ed25519_ops]. unfold Ed25519.compress. destruct (Ed25519.affine P). apply z2le_length. Qed.
+
+Lemma fmul_comm a b : Ed25519.fmul a b = Ed25519.fmul b a.
+Proof. unfold Ed25519.fmul. now rewrite Z.mul_comm. Qed.
+
+Lemma fadd_comm a b : Ed25519.fadd a b = Ed25519.fadd b a.
+Proof. unfold Ed25519.fadd. now rewrite Z.add_comm. Qed.
+
+Lemma fmul3_comm a d b : Ed25519.fmul (Ed25519.fmul a d) b = Ed25519.fmul (Ed25519.fmul b d) a.
+Proof.
+  unfold Ed25519.fmul. rewrite !Z.mul_mod_idemp_l by (vm_compute; discriminate). f_equal. ring.
+Qed.
+
+Lemma pt_add_comm p q : Ed25519.pt_add p q = Ed25519.pt_add q p.
+Proof.
+  unfold Ed25519.pt_add.
+  rewrite (fmul_comm (Ed25519.pX p) (Ed25519.pX q)), (fmul_comm (Ed25519.pY p) (Ed25519.pY q)),
+          (fmul_comm (Ed25519.pZ p) (Ed25519.pZ q)), (fmul3_comm (Ed25519.pT p) Ed25519.ed_d (Ed25519.pT q)),
+          (fmul_comm (Ed25519.fadd (Ed25519.pX p) (Ed25519.pY p)) (Ed25519.fadd (Ed25519.pX q) (Ed25519.pY q))).
+  reflexivity.
+Qed.
+
+(* commutativity holds for ALL representatives, valid or not *)
+Lemma inst_padd_comm (P Q : @point ed25519_ops) : padd P Q = padd Q P.
+Proof. cbn [padd ed25519_ops]. now rewrite pt_add_comm. Qed.
+
+Lemma inst_peqb_eq (P Q : @point ed25519_ops) : valid P -> valid Q -> (peqb P Q = true <-> P = Q).
+Proof.
+  cbn [valid peqb ed25519_ops]. unfold inst_valid, Ed25519.pt_eqb.
+  destruct P as [x1 y1 z1 t1], Q as [x2 y2 z2 t2]. cbn [Ed25519.pX Ed25519.pY Ed25519.pZ Ed25519.pT].
+  intros (Hx1 & Hy1 & -> & -> & _) (Hx2 & Hy2 & -> & -> & _).
+  unfold Ed25519.fmul at 1 2 3 4. rewrite !Z.mul_1_r, !Z.mod_small by assumption.
+  rewrite andb_true_iff, !Z.eqb_eq. split.
+  - intros [-> ->]. reflexivity.
+  - intros H. injection H as -> ->. now split.
+Qed.
